@@ -410,6 +410,8 @@ func runC19(cases string, res *Result) {
 			c19Decimal(eng, c, res)
 		case "casetable":
 			c19CaseTable(c, res)
+		case "derive":
+			c19Derive(eng, c, res)
 		default:
 			c19Generic(eng, c, res)
 		}
@@ -1174,4 +1176,115 @@ func c19CaseTable(c Case, res *Result) {
 				Detail: "the case table of ocaml/c19.ml differs from Go's unicode package"})
 		}
 	}
+}
+
+// ---------------------------------------------------------------- several values derived from one base
+
+// withCap rebuilds a []interface{} with spare capacity, as a list built by append in Go code has
+func c19WithCap(v interface{}, extra int) interface{} {
+	if xs, ok := v.([]interface{}); ok {
+		out := make([]interface{}, len(xs), len(xs)+extra)
+		copy(out, xs)
+		return out
+	}
+	return v
+}
+
+// c19Derive computes x1 = xj|f(args) ... step by step and looks at every value only after all were computed:
+// each must still be what it was when it was computed (the oracle: a filter's result is a function of its
+// inputs, so computing another value from the same source cannot change it) and what the model predicts.
+// Done twice: by calling the filter functions, and through {% set %} in a template.
+func c19Derive(eng *c19Engine, c Case, res *Result) {
+	exp := c.list("exp")
+	outs := c.list("outs")
+	steps := c.list("steps")
+	cap := c.num("cap")
+	vals := []interface{}{c19WithCap(c19Parse(c.str("v")), cap)}
+	snap := []string{c19Canon(vals[0])}
+	ctx := map[string]interface{}{"sep": c19Sep, "sep2": "\x1e", "x0": c19WithCap(c19Parse(c.str("v")), cap)}
+	var tpl strings.Builder
+	for i, st := range steps {
+		m := st.(map[string]interface{})
+		f := m["f"].(string)
+		src := int(m["src"].(float64))
+		var args []interface{}
+		var names []string
+		for k, a := range m["args"].([]interface{}) {
+			as := a.(string)
+			if strings.HasPrefix(as, "r") {
+				j, _ := strconv.Atoi(as[1:])
+				args = append(args, vals[j])
+				names = append(names, "x"+strconv.Itoa(j))
+			} else {
+				name := fmt.Sprintf("a%d_%d", i+1, k)
+				args = append(args, c19Parse(as))
+				ctx[name] = c19Parse(as)
+				names = append(names, name)
+			}
+		}
+		res.Evaluations++
+		out, class, detail := c19Call(f, vals[src], args)
+		if class != "ok" {
+			c19Add(res, Finding{Kind: "oracle", Where: "derive/" + f, Case: c, Observed: class, Detail: fmt.Sprintf("step %d failed: %s", i+1, detail)})
+			return
+		}
+		vals = append(vals, out)
+		snap = append(snap, c19Canon(out))
+		call := ""
+		if len(names) > 0 {
+			call = "(" + strings.Join(names, ", ") + ")"
+		}
+		fmt.Fprintf(&tpl, "{%% set x%d = x%d|%s%s %%}", i+1, src, f, call)
+	}
+	for i := range vals {
+		now := c19Canon(vals[i])
+		if now != snap[i] {
+			c19Add(res, Finding{Kind: "oracle", Where: "derive/aliasing", Case: c, Expected: snap[i], Observed: now,
+				Detail: fmt.Sprintf("value x%d changed after it was computed: a later filter call wrote into it", i)})
+			return
+		}
+		if i < len(exp) && c19TextCanon(vals[i]) != exp[i].(string) {
+			c19Add(res, Finding{Kind: "disagreement", Where: "derive/direct", Case: c, Expected: exp[i].(string), Observed: c19TextCanon(vals[i]), Detail: fmt.Sprintf("value x%d", i)})
+			return
+		}
+	}
+	// through a template
+	want := make([]string, len(outs))
+	for i := range vals {
+		fmt.Fprintf(&tpl, "{{ x%d|join(sep) }}{{ sep2 }}", i)
+		if i < len(outs) {
+			want[i] = unhex(outs[i].(string))
+		}
+	}
+	res.Evaluations++
+	o, class, detail := eng.render(tpl.String(), ctx)
+	got := strings.Split(strings.TrimSuffix(o, "\x1e"), "\x1e")
+	if class != "ok" || len(got) != len(want) {
+		c19Add(res, Finding{Kind: "disagreement", Where: "derive/template", Case: c, Observed: class + ":" + hx(o), Detail: tpl.String() + " " + detail})
+		return
+	}
+	for i := range want {
+		if got[i] != want[i] {
+			// the value each step computed is a function of its inputs (proved of the model); the template printed
+			// something else for a value that the direct calls, one at a time, computed as predicted
+			c19Add(res, Finding{Kind: "oracle", Where: "derive/template", Case: c, Expected: hx(want[i]), Observed: hx(got[i]),
+				Detail: fmt.Sprintf("x%d printed after all values were computed is not what its own step computes: %s", i, tpl.String())})
+			return
+		}
+	}
+}
+
+// c19TextCanon is the representation of a list and the text of its items (items that sort as equal may come
+// in any order: null and the empty string, 1 and '1')
+func c19TextCanon(v interface{}) string {
+	xs, ok := c19Elems(v)
+	if !ok {
+		return c19Canon(v)
+	}
+	canon := c19Canon(v)
+	parts := make([]string, len(xs))
+	for i, x := range xs {
+		parts[i] = hx(c19Text(x))
+	}
+	return canon[:strings.IndexByte(canon, '(')] + "(" + strings.Join(parts, " ") + ")"
 }
